@@ -433,6 +433,27 @@ def directed_f14(rng):
     return a, b, ["pair-RR", "directed-F14"]
 
 
+def directed_tolerance_band(rng):
+    """two explicit meshes that state DIFFERENT tolerances, one coordinate deviating by an amount between the two:
+    the implementation takes the smaller tolerance of the pair (mesh_equal), so does the model — verdict unequal in both
+    orders.  (The property-level rule S5 leaves the band open; this family is there for the correspondence: an
+    implementation that switched to the larger tolerance would differ from the model on these pairs only.)"""
+    out = []
+    base = [[0.0, 0.0], [4.0, 0.0], [4.0, 2.0], [0.0, 2.0], [8.0, 2.0], [8.0, 0.0]]
+    cells = [["QUAD", [[0, 1, 2, 3], [1, 5, 4, 2]]]]
+    for which, (tol_a, tol_b, dev) in {
+            "rel": ([0.0, 1e-3], [0.0, 1e-9], 8.0 * 1e-5),            # [abs, rel]; |dev| between rel_b*8 and rel_a*8
+            "abs": ([1e-3, 0.0], [1e-9, 0.0], 1e-5),
+            "both": ([1e-4, 1e-4], [1e-10, 1e-10], 2e-5)}.items():
+        moved = copy.deepcopy(base)
+        moved[4][0] += dev
+        for ta, tb in ((tol_a, tol_b), (tol_b, tol_a)):
+            a = {"k": "E", "lm": {"dim": 2, "points": copy.deepcopy(base), "cells": copy.deepcopy(cells), "pf": [], "cf": []}, "tol": ta}
+            b = {"k": "E", "lm": {"dim": 2, "points": copy.deepcopy(moved), "cells": copy.deepcopy(cells), "pf": [], "cf": []}, "tol": tb}
+            out.append((a, b, ["pair-EE", "directed-tolerance-band", "band-" + which, "custom-tol"]))
+    return out
+
+
 def directed_f7(rng):
     a = {"k": "I", "ext": [2, 0, 0], "origin": [1000.0, 0.0, 0.0], "spacing": [1.0, 1.0, 1.0], "basis": None}
     b = dict(a, spacing=[1.000009, 1.0, 1.0])
@@ -1123,7 +1144,7 @@ def run(ctx):
         check_stated_tolerances(ctx, sa, sb, name, rows)
     flush_lean(ctx, rows)
     del rows[:]
-    pairs = [directed_f7(rng), directed_f14(rng)]
+    pairs = [directed_f7(rng), directed_f14(rng)] + directed_tolerance_band(rng)
     for i in range(n):
         pairs.append(gen_pair(rng, i))
     # if the directed list showed that verdicts depend on what the process did before, a failing random pair is
